@@ -134,6 +134,20 @@ def check_basis(case):
             img = [Perm(ref.sym_perm(g, p)) for p in perms]
             if PW.has_finite_simples(img) != verdict:
                 return BAD("not_symmetry_invariant", {"basis": [list(p) for p in perms], "symmetry": g, "verdict": verdict})
+    # ---- (i') the three component verdicts, each against its own explicit chains: a family of
+    # special simples is finite for the class iff every one of its eight symmetric chains has a
+    # (hence every later) member containing a basis element.  (My chain "w2" - the new point in the
+    # middle of the wedge - is what the library calls type 1, "w1" - the new point in front - type 2.)
+    k0 = max(len(p) for p in perms) + 1
+    if 2 <= k0 <= KMAX and all(len(p) >= 1 for p in perms):
+        for fam, fn in (("par", PW.has_finite_alternations), ("w2", PW.has_finite_wedges_type_1), ("w1", PW.has_finite_wedges_type_2)):
+            want = all(any(ref.contains(c[k0], b) for b in perms) for (name, _g), c in chains().items() if name == fam)
+            got = fn(P)
+            if got != want:
+                return BAD("component_" + fn.__name__, {"basis": [list(p) for p in perms], "got": got, "want": want})
+        want_special = all(any(ref.contains(c[k0], b) for b in perms) for c in chains().values())
+        if PW.has_finite_special_simples(P) != want_special:
+            return BAD("component_has_finite_special_simples", {"basis": [list(p) for p in perms], "got": PW.has_finite_special_simples(P), "want": want_special})
     labels = ["finite" if verdict else "infinite"]
     nt = False
     # ---- (ii) infinite => simples in one of every two consecutive lengths
